@@ -27,7 +27,7 @@ FLAVOUR = "plain"
 FLAVOURS = ["plain", "san"]
 TIERS = {"quick": (14000, 170), "thorough": (900000, 3300)}
 RULE_TEXT = ("one run = (A) one generated chart with one planted failing element (kind and position drawn from every executable block: onentry, onexit, transition, "
-             "initial/history transition, nested <if>, <data>) x one event history, refined against the reference model that knows the failing element, or "
+             "initial/history transition, nested <if>, <data>, or the guard of a transition) x one event history, refined against the reference model that knows the failing element, or "
              "(B) one seeded XML mutation of a generated chart loaded and stepped under crash containment; a third of the runs use the ASan+UBSan build; "
              "non-trivial = (A) the planted element was actually executed, (B) the mutated document was accepted by the XML parser and stepped; "
              "distinct = distinct document content hashes among non-trivial runs")
